@@ -671,7 +671,7 @@ class XMLRootElement(XMLElement):
             end = xml_data.rstrip()
             if not (
                 end.endswith('</' + root.tag + '>') or
-                (not len(root) and root.text is None and end.endswith('/>'))
+                (end.endswith('/>') and end.count('<') == 1)
             ):
                 raise XMLLoadError('incomplete xml file: ' + file_path)
 
